@@ -458,3 +458,21 @@ pub fn list_semantics<N: Nondet, const I: usize, const CONCAT: bool>(n: &mut N) 
         pa!("C16", s.d.cells[t].tag == T::Unit && t >= s.cells_before);
     }
 }
+
+/// Equal / NotEqual on two numbers of any representation (any i32, any f64 incl. NaN, infinities, -0.0):
+/// numeric equality, integers and floats mixed
+pub fn equality_numbers<N: Nondet, const NEGATE: bool>(n: &mut N) {
+    let instr = if NEGATE { Instruction::NotEqual } else { Instruction::Equal };
+    let mut d: SD = BoundedData::new();
+    let (a, b) = (any_f64_or_int(n), any_f64_or_int(n));
+    let l = d.add_number(a).unwrap();
+    let r = d.add_number(b).unwrap();
+    let mut s = finish(n, d, &[l, r], instr);
+    let res = execute_current_instruction(&mut s.d);
+    gv_cover!(true, "reached");
+    pa!("C11", ran_ok(res));
+    pa!("C11", s.d.n_regs == s.regs_before - 1 && s.d.regs[0] == s.sentinel);
+    let equal = ref_num_cmp(a, b) == Some(Ordering::Equal);
+    let want = if equal != NEGATE { T::True } else { T::False };
+    pa!("C11", s.d.cells[top(&s.d)].tag == want);
+}
